@@ -43,6 +43,8 @@ func (s *Server) BootstrapContext(ctx context.Context) (_ TraversalStats, err er
 	})
 	nodes, err := s.TraversalStartingNodes()
 	if err != nil {
+		// Nothing to traverse: stop the operation that was already started.
+		t.Stop()
 		return
 	}
 	t.AddNodes(nodes)
